@@ -3,6 +3,7 @@ package main
 // C01 — sam toMultiAlign projects every query onto reference coordinates exactly.
 
 import (
+	"encoding/json"
 	"fmt"
 	"strings"
 
@@ -477,13 +478,70 @@ func c01BinCheck(c c01Case, res *engine.JobResult) {
 	}
 }
 
+// ---- schedule layer: the --threads quantifier. The same projection must come out under every explored
+// interleaving of the reader / workers / re-ordering writer, including those in which one worker is
+// stalled while the others run far ahead (starvation family, 70 queries).
+
+func c01SchedCases() []c01Case {
+	mk := func(n, wrap int, pad bool) c01Case {
+		var recs []SamRec
+		for i := 0; i < n; i++ {
+			cig := [][]CigOp{{{'M', 6}}, {{'M', 2}, {'D', 1}, {'M', 3}}, {{'S', 1}, {'M', 3}, {'I', 1}, {'M', 2}}, {{'M', 1}, {'N', 2}, {'M', 2}}}[i%4]
+			recs = append(recs, SamRec{Name: fmt.Sprintf("q%02d", i), Pos: 1, Cigar: cig, Seq: seqByQueryIndex(cig, i)})
+			if i%5 == 3 {
+				recs = append(recs, SamRec{Name: fmt.Sprintf("q%02d", i), Flag: 2048, Pos: 5, Cigar: []CigOp{{'H', 2}, {'M', 2}}, Seq: seqByQueryIndex([]CigOp{{'M', 2}}, i+3)})
+			}
+		}
+		return c01Case{L: c01L, Recs: recs, Pad: pad, Wrap: wrap, Threads: 2}
+	}
+	return []c01Case{mk(4, 0, false), mk(4, 4, true), mk(70, 0, false), mk(70, 5, false)}
+}
+
+func c01SchedScenarios() []Scenario {
+	var out []Scenario
+	for i, c := range c01SchedCases() {
+		call := c.call()
+		call.NCPU = 2
+		mode := "D2M1"
+		if len(c.Recs) > 20 {
+			mode = "D1M1"
+		}
+		out = append(out, Scenario{Name: fmt.Sprintf("toma-sched-%d/records%d/wrap%d", i, len(c.Recs), c.Wrap), Family: "toma-schedule", Call: call, Mode: mode})
+	}
+	return out
+}
+
+func c01SchedJudge(sc *Scenario, st *engine.Stats, res *engine.JobResult) {
+	var idx int
+	fmt.Sscanf(sc.Name, "toma-sched-%d/", &idx)
+	c := c01SchedCases()[idx]
+	names, rows, _ := c01Expected(c)
+	for obs, n := range st.Outcomes {
+		ok := strings.HasPrefix(obs, "returned|err=false:|")
+		if ok {
+			var txt string
+			fmt.Sscanf(strings.TrimPrefix(obs, "returned|err=false:|"), "%q", &txt)
+			recs, okp := parseFasta(txt)
+			ok = okp && len(recs) == len(names)
+			for i := 0; ok && i < len(recs); i++ {
+				ok = recs[i].Header == names[i] && recs[i].Seq == rows[i] && wrapOK(recs[i].Widths, len(rows[i]), c.Wrap)
+			}
+		}
+		if !ok {
+			res.Violate("toma:schedule-dependent-output", fmt.Sprintf("scenario %s: %d explored execution(s) do not produce the projection of every query in input order: %.400s", sc.Name, n, obs), schedCase{Scenario: *sc, Trace: st.FirstTrace[obs], Obs: obs})
+		} else {
+			res.Nontrivial += n
+		}
+	}
+}
+
 func init() {
 	layers := map[string]func(string, int, int, *engine.JobResult){"A": c01LayerA, "B": c01LayerB, "C": c01LayerC, "D": c01LayerD, "CLI": c01CLI}
 	register(&Prop{
 		ID:    "C01",
 		Level: "model_checking",
 		Rule: "bounded-exhaustive enumeration against a reference projection model. A: every valid CIGAR over MIDNSHP=X (operator lengths 1,2; adjacent operators distinct; >=1 M/=/X) with <=3 (thorough <=4) operators at every POS on a length-6 reference, pad off/on, SEQ with a different letter at each query position; " +
-			"B: every ordered pair of <=2-operator records of one query (agreeing and conflicting bases) (thorough: + every triple on the length-1 subset); C: every stream of 2..4 (thorough 5) records over two query names x flags {0,16,2048,4,256,260}; D: 16 (thorough 64) representative multi-query files x every window (each bound alone too) x pad x wrap {off,1,2,3,L,L+1} x threads 1..3. " +
+			"B: every ordered pair of <=2-operator records of one query (agreeing and conflicting bases) (thorough: + every triple on the length-1 subset); C: every stream of 2..4 (thorough 5) records over two query names x flags {0,16,2048,4,256,260}; D: 16 (thorough 64) representative multi-query files x every window (each bound alone too) x pad x wrap {off,1,2,3,L,L+1} x threads 1..3; S (schedules): files of 4 and of 70 queries (some multi-record) with 2 workers under every execution with <=2 (70 queries: <=1) non-default scheduling choices plus the starvation family (each goroutine in turn only runs when nothing else can): every execution must produce the model's output. " +
 			"A case is one query (group of records) in one option setting; non-trivial = its CIGARs contain an operator other than M, or several records, or an option is set; every case is generated once",
 		Assumptions: []string{
 			"CIGAR N (reference skip) counts as 'no coverage'",
@@ -501,21 +559,35 @@ func init() {
 			if tier == "thorough" {
 				n = map[string]int{"A": 64, "B": 256, "C": 64, "D": 64, "CLI": 8}
 			}
+			sjobs, pre := planSched(c01SchedScenarios(), 1, c01SchedJudge)
+			jobs = append(jobs, sjobs...)
 			for _, l := range []string{"A", "C", "D", "CLI", "B"} {
 				for s := 0; s < n[l]; s++ {
 					jobs = append(jobs, fmt.Sprintf("%s:%d/%d", l, s, n[l]))
 				}
 			}
-			return jobs, nil
+			return jobs, pre
 		},
 		Exec: func(tier, job string) *engine.JobResult {
 			res := &engine.JobResult{}
 			defer func() { res.Transitions = res.States }()
 			if strings.HasPrefix(job, "case:") {
+				var scs schedCase
+				if err := json.Unmarshal([]byte(job[5:]), &scs); err == nil && scs.Scenario.Name != "" {
+					st := engine.NewStats()
+					_, obs := scs.Scenario.execFn()(scs.Trace)
+					st.Outcomes[obs] = 1
+					st.FirstTrace[obs] = scs.Trace
+					c01SchedJudge(&scs.Scenario, st, res)
+					return res
+				}
 				var c c01Case
 				mustJSON(job[5:], &c)
 				c01Check(c, res, false)
 				return res
+			}
+			if strings.HasPrefix(job, "{") {
+				return execSched(c01SchedScenarios(), job, c01SchedJudge)
 			}
 			var l string
 			var s, n int
